@@ -15,7 +15,7 @@ use std::sync::atomic::{AtomicBool, AtomicUsize, Ordering};
 use std::sync::{Arc, Mutex};
 use std::time::Duration;
 
-pub const RULE: &str = "a scripted fake node consumes a generated per-attempt outcome sequence over {refused (port closed), accepted-then-closed, closed-while-idle (replies, then closes), silent-until-timeout, malformed reply, application error, success}; a probe at the start of every fleet attempt (verif-hooks) lets the node switch its listener deterministically and counts attempts including refused ones; calls are issued one after another until the script is consumed, followed by a healthy phase; oracle per call: attempts <= max_attempts, nothing is attempted after a reply, the result is that reply (value / application error) or an error if no reply arrived, application errors are never retried; healthy phase: success by the second call at the latest (never wedged); exhaustive over all outcome sequences of length <= max_attempts+2 for max_attempts 1..3 in thorough, stratified sample in quick, on Fleet and AsyncFleet; broadcast: all tag subsets over up to 4 nodes address exactly the nodes carrying all requested tags with one result each; a connection that went silent stays silent (hung) while new connections are answered; a failing case is re-run once with a 20x longer call timeout and reported only if it fails again; non-trivial = at least one transport failure followed by the healthy phase; distinct = case hash";
+pub const RULE: &str = "a scripted fake node consumes a generated per-attempt outcome sequence over {refused (port closed), accepted-then-closed, closed-while-idle (replies, then closes), silent-until-timeout, malformed reply, application error, success}; a probe at the start of every fleet attempt (verif-hooks) lets the node switch its listener deterministically and counts attempts including refused ones; calls are issued one after another until the script is consumed, followed by a healthy phase; oracle per call: attempts <= max_attempts, nothing is attempted after a reply, the result is that reply (value / application error) or an error if no reply arrived, application errors are never retried; healthy phase: success by the second call at the latest (never wedged); exhaustive over all outcome sequences of length <= max_attempts+2 for max_attempts 1..3 in thorough, stratified sample in quick, on Fleet and AsyncFleet; broadcast: all tag subsets over up to 4 nodes address exactly the nodes carrying all requested tags with one result each, whatever order the tags are listed in and with a tag repeated; a retry within a call reaches the node whenever the node is up; a connection that went silent stays silent (hung) while new connections are answered; a failing case is re-run once with a 20x longer call timeout and reported only if it fails again; non-trivial = at least one transport failure followed by the healthy phase; distinct = case hash";
 
 #[derive(Debug, Clone, Copy, Serialize, Deserialize, Hash, PartialEq, Eq)]
 pub enum Outcome {
@@ -293,7 +293,7 @@ fn one_call(fleet: &AnyFleet, use_message: bool) -> (Option<Value>, Option<Strin
 pub fn check(c: &Case) -> CheckResult {
     match check_with(c, 80) {
         Ok(info) => Ok(info),
-        Err(_) => check_with(c, 1600).map(|info| info.class("first-run-failure-not-reconfirmed")),
+        Err(first) => check_with(c, 1600).map(|info| info.class(format!("first-run-failure-not-reconfirmed:{}", first.sig))),
     }
 }
 
@@ -362,6 +362,18 @@ fn check_with(c: &Case, timeout_ms: u64) -> CheckResult {
             );
             for (i, r) in recs.iter().enumerate() {
                 let is_last = i + 1 == n;
+                // a retry (an attempt that follows a failed attempt of the same call) is made on
+                // a fresh connection, so it reaches a node that is up
+                if i > 0 && matches!(r.planned, Some(Outcome::Success | Outcome::AppError | Outcome::Malformed | Outcome::Silent | Outcome::CloseWhileIdle)) {
+                    ensure!(
+                        r.accepted > 0 || r.requests > 0,
+                        "retry-did-not-reconnect",
+                        "call {calls}: attempt {} was made while the node was up and answering ({:?}) but never reached it (no connection, no request): the retry did not reconnect (planned {:?})",
+                        i + 1,
+                        r.planned,
+                        recs.iter().map(|r| r.planned).collect::<Vec<_>>()
+                    );
+                }
                 match r.reply {
                     Some(Reply::Success) | Some(Reply::AppError) => {
                         ensure!(
@@ -484,6 +496,9 @@ pub struct Bcast {
     /// per node: tag bitmask over {a,b,c}
     pub nodes: Vec<u8>,
     pub request: u8,
+    /// how the requested tags are listed: 0 = ascending, 1 = descending, 2 = rotated, 3 = ascending with the first repeated at the end
+    #[serde(default)]
+    pub listing: u8,
 }
 
 const TAGS: [&str; 3] = ["a", "b", "c"];
@@ -504,7 +519,13 @@ pub fn check_broadcast(c: &Bcast) -> CheckResult {
                 .map_err(|e| Fail::new("harness-config", e.to_string()))?,
         );
     }
-    let req_tags: Vec<&str> = (0..3).filter(|b| c.request & (1 << b) != 0).map(|b| TAGS[b]).collect();
+    let mut req_tags: Vec<&str> = (0..3).filter(|b| c.request & (1 << b) != 0).map(|b| TAGS[b]).collect();
+    match c.listing % 4 {
+        1 => req_tags.reverse(),
+        2 if !req_tags.is_empty() => req_tags.rotate_left(1),
+        3 if !req_tags.is_empty() => req_tags.push(req_tags[0]),
+        _ => {}
+    }
     let want: BTreeSet<String> = c
         .nodes
         .iter()
@@ -561,11 +582,17 @@ fn broadcast_cases() -> Vec<Bcast> {
     for asynchronous in [false, true] {
         for a in &assignments {
             for request in 0..8u8 {
-                v.push(Bcast {
-                    asynchronous,
-                    nodes: a.clone(),
-                    request,
-                });
+                for listing in 0..4u8 {
+                    if listing > 0 && request.count_ones() < 2 && listing != 3 {
+                        continue; // same listing as 0
+                    }
+                    v.push(Bcast {
+                        asynchronous,
+                        nodes: a.clone(),
+                        request,
+                        listing,
+                    });
+                }
             }
         }
     }
